@@ -1,2 +1,3 @@
 import Capnp.Spec.Packing
 import Capnp.Model.Packed
+import Capnp.Spec.Encoding
